@@ -48,8 +48,12 @@ def write_rank_file(rank_desc: Dict[str, Any], world: int, directory: str, fmt: 
     return path
 
 
+def world_size(case: Dict[str, Any]) -> int:
+    return max(len(case["ranks"]), 1 + max(int(rd["rank"]) for rd in case["ranks"]))
+
+
 def write_case(case: Dict[str, Any], directory: str) -> Dict[int, str]:
-    world = len(case["ranks"])
+    world = world_size(case)
     fmts = case.get("fmt", "json")
     out: Dict[int, str] = {}
     for i, rd in enumerate(case["ranks"]):
